@@ -96,7 +96,7 @@ func DecodeLoudnessBaseBoxSR(hdr BoxHeader, startPos uint64, sr bits.SliceReader
 		}
 		b.LoudnessBases = append(b.LoudnessBases, l)
 	}
-	return b, nil
+	return b, sr.AccError()
 }
 
 // Type of LoundessBaseBox, should be tlou or alou
